@@ -141,7 +141,8 @@ def run_checks(wt, props, runs=None):
         cmd = ['/venv/bin/python', os.path.join(VERIF, 'check.py'), 'run', prop, '--tier', 'quick']
         if runs:
             cmd += ['--runs', str(runs)]
-        p = sh(*cmd, env=dict(os.environ, VERIF_REPO=wt))
+        p = sh(*cmd, env=dict(os.environ, VERIF_REPO=wt, VERIF_EVIDENCE_DIR='/tmp/scratch/mutant-evidence',
+                              VERIF_REPLAY_DIR='/tmp/scratch/mutant-replays'))
         viol = [l for l in p.stdout.splitlines() if l.startswith('violation oracle=')]
         res[prop] = (p.returncode, [v.split()[1] for v in viol])
     return res
@@ -151,10 +152,6 @@ def main():
     want = sys.argv[1:]
     wt = '/tmp/scratch/mutant-tree'
     rows = []
-    saved_ev = os.path.join('/tmp/scratch', 'evidence-backup')
-    shutil.rmtree(saved_ev, ignore_errors=True)
-    if os.path.isdir(os.path.join(VERIF, 'evidence')):
-        shutil.copytree(os.path.join(VERIF, 'evidence'), saved_ev)
     items = []
     for name, fn, old, new, exp in MUTANTS:
         if old is None:
@@ -165,7 +162,8 @@ def main():
         meta = os.path.join(sd, sid, 'meta.json')
         if os.path.exists(meta):
             m = json.load(open(meta))
-            items.append(('seeded/' + sid, ('patch', os.path.join(sd, sid, 'patch.diff')), [m['property']]))
+            items.append(('seeded/' + sid, ('patch', os.path.join(sd, sid, 'patch.diff')),
+                          m.get('expected_checks') or [m['property']]))
     try:
         for name, how, exp in items:
             if want and name not in want and name.split('/')[-1] not in want:
@@ -191,11 +189,18 @@ def main():
                 print("      %s: %s" % (p, ' '.join(sorted(set(res[p][1])))))
             sys.stdout.flush()
             rows.append((name, ok, exp, caught, verdict))
+            if name.startswith('seeded/'):
+                mp = os.path.join(sd, name.split('/', 1)[1], 'meta.json')
+                m = json.load(open(mp))
+                m['caught_by'] = dict((p, sorted(set(o.replace('oracle=', '') for o in res[p][1]))) for p in caught)
+                m['tests_pass_with_patch'] = ok
+                m['checks_run'] = ("all ten quick checks (check.py run <id> --tier quick) with VERIF_REPO=<scratch worktree "
+                                   "with patch.diff applied>, via selftest/mutants.py; the unpatched tree is silent")
+                json.dump(m, open(mp, 'w'), indent=1)
     finally:
         drop_tree(wt)
-        if os.path.isdir(saved_ev):
-            shutil.rmtree(os.path.join(VERIF, 'evidence'), ignore_errors=True)
-            shutil.copytree(saved_ev, os.path.join(VERIF, 'evidence'))
+        shutil.rmtree('/tmp/scratch/mutant-evidence', ignore_errors=True)
+        shutil.rmtree('/tmp/scratch/mutant-replays', ignore_errors=True)
     missed = [r for r in rows if r[4] == 'MISSED']
     print("mutants run: %d, missed: %d" % (len(rows), len(missed)))
     return 1 if missed else 0
